@@ -75,6 +75,27 @@ fn run_case(mode: &str, src: &str) -> String {
                 Err(e) => format!("ERR\t{}", esc(&format!("{}", e))),
             }
         }
+        "buildfile" => {
+            // the full file pipeline: type checker first, then the VM (FileBuilder::build)
+            let dir = std::env::temp_dir().join(format!("verif_driver_{}", std::process::id()));
+            let _ = std::fs::create_dir_all(&dir);
+            let path = dir.join("case.ucg");
+            std::fs::write(&path, src).unwrap();
+            let env = RefCell::new(Environment::new(io::sink(), io::sink()));
+            let import_paths = vec![];
+            let mut builder = FileBuilder::new(&dir, &import_paths, &env);
+            builder.set_strict(true);
+            let r = match builder.build(&path) {
+                Ok(_) => "OK\t".to_string(),
+                Err(e) => format!("ERR\t{}", esc(&format!("{}", e))),
+            };
+            let _ = std::fs::remove_dir_all(&dir);
+            r
+        }
+        "ast" => match parse(OffsetStrIter::new(src), None) {
+            Ok(stmts) => format!("OK\t{}", esc(&format!("{:?}", stmts))),
+            Err(e) => format!("ERR\t{}", esc(&format!("{}", e))),
+        },
         "tokens" => match ucglib::tokenizer::tokenize(OffsetStrIter::new(src), None) {
             Ok(toks) => {
                 let parts: Vec<String> = toks
